@@ -226,8 +226,11 @@ fn run(cfg: &Value, ctx: &mut RunCtx) -> Step<()> {
                         }
                     }
                 }
-                // the statement does not say what delete does to the dirty flag
-                m.dirty = None;
+                // the statement does not say whether delete raises the dirty flag; once raised by a
+                // set it stays raised ("set after any set") until the archive is parsed again
+                if m.dirty != Some(true) {
+                    m.dirty = None;
+                }
                 ctx.outcome("delete_message", if pos.is_some() { "hit" } else { "miss" }, "");
                 check_state(ctx, &a, &mut m, "delete_message")?;
             }
@@ -257,7 +260,9 @@ fn run(cfg: &Value, ctx: &mut RunCtx) -> Step<()> {
             Op::SetTitle { t } => {
                 ctx.mila("set_title", || a.set_title(t.clone()))?;
                 m.title = t.clone();
-                m.dirty = None;
+                if m.dirty != Some(true) {
+                    m.dirty = None;
+                }
                 ctx.outcome("set_title", "ok", "");
                 check_state(ctx, &a, &mut m, "set_title")?;
             }
